@@ -757,7 +757,7 @@ func init() {
 	extend("C02", "(P13-reduce) narrowing a record to its matching entries keeps its should-total (and date, summary), so should-total and diff under a filter are those of the records selected.", ruleP13Reduce)
 	extend("C17", "Also (P12-now-applied, P12-now-all): --now is applied to all records of the evaluation, not to a subset.", ruleP12NowApplied, ruleP12NowAll)
 	extend("C03", "Also (P07-renumber): the blocks the reconciler positions its edits by carry file-global line numbers on every return of the parallel engine.", ruleP07Renumber)
-	extend("C04", "(P03-concat-position) the further lines of a multi-line stop summary go directly under the line the first one was appended to. Also (P07-renumber, P11-determine-first): blocks carry file-global line numbers (an edit lands in the record it was computed for), and the indentation of an inserted entry is that of the record's first indented line (otherwise the added line is read as a summary continuation).", ruleP07Renumber, ruleP11DetermineFirst, ruleP03ConcatPosition)
+	extend("C04", "(P03-entry-line) stop and pause rewrite the value line of the entry they mean, stepping over all lines of all later entries; (P03-concat-position) the further lines of a multi-line stop summary go directly under the line the first one was appended to. Also (P07-renumber, P11-determine-first): blocks carry file-global line numbers (an edit lands in the record it was computed for), and the indentation of an inserted entry is that of the record's first indented line (otherwise the added line is read as a summary continuation).", ruleP07Renumber, ruleP11DetermineFirst, ruleP03ConcatPosition, ruleP03EntryLine)
 	extend("C12", "Also (P17-calendar-days): the day split of `today` and every other relative day is computed with PlusDays on the date, not by shifting the clock instant by 24 hours.", ruleP17CalendarDays)
 	extend("C13", "Also (P17-calendar-days): --yesterday / --tomorrow and friends are calendar days, not 24-hour offsets of the instant.", ruleP17CalendarDays)
 	extend("C03", "Also (P08-io-verbatim): WriteToFile puts exactly the reconciler's text on disk.", ruleP08IoVerbatim)
@@ -771,5 +771,11 @@ func init() {
 	extend("C09", "(P09-first-summary-line) the first entry-summary line is left out only when the raw line is empty. Also (P18-nostyle-applied): print applies --no-style before it obtains the serialiser, so the unstyled output carries no escape sequences.", ruleP18NoStyleApplied, ruleP09FirstSummaryLine)
 	extend("C09", "(P18-format) the text serialiser wraps the unchanged text of dates, values, summaries and tags in styling only, so the unstyled print output carries the file's own text.", ruleP18Format)
 	extend("C06", "(P17-err) in app/cli and service no error of a time computation is discarded while the possibly-nil time is used (a nil dereference is a crash).", ruleP17Err)
+	extend("C13", "(P15-guards) period strings that do not denote an existing period (W53 of a 52-week year) are rejected; (P14-model, P14-unquote) the tags a summary yields are the unquoted tags the --tag decoder compares with.", ruleP15Guards, ruleP14Model, ruleP14Unquote)
+	extend("C15", "(P12-group) every period of the report is printed in exactly one row.", ruleP12Group)
+	extend("C16", "(P09-notation) dates print as YYYY-MM-DD with zero padding, so that every printed date parses again.", ruleP09Notation)
+	extend("C19", "(P05-write-result) the writer behind the bookmark database replaces the file's content (truncation).", ruleP05WriteResult)
+	extend("C04", "(P17-one-instant) the target date and the time of start/stop/switch come from one reading of the clock.", ruleP17OneInstant)
+	extend("C12", "(P18-cells) every row of the report, gap rows of --fill included, has the table's cell count, so that a filled gap shifts no value into another period's row.", ruleP18Cells)
 	extend("C10", "(P10-char-units) no byte length of a string is used as error position or length; (P10-format) no format string of a printf-style call contains data (source line, file name, message). Also (P07-errmerge, P07-merge-order): every error list produced by a worker or by re-parsing carried text reaches the merged list, carried text first.", ruleP07ErrMerge, ruleP07MergeOrderAll, ruleP10Format, ruleP10CharUnits)
 }
